@@ -40,6 +40,8 @@ func checkC10(c *Ctx) {
 	c.Rule("R10.8", "no loop overwrites an error it carried over from an earlier round without having looked at it (the failure of every element but the last would vanish)", 1)
 	c10NoErrorOverwrittenInLoop(c, "R10.8")
 	c.Rule("R10.7", "the reflection scratch buffer is emptied (or freshly taken) on every path before a value is encoded into it: what a failed encoding left behind never reaches a later value", 1)
+	c.Rule("R10.9", "a failing sink never makes the BufferedWriteSyncer forget what it holds: its bufio.Writer is never Reset (bytes already accepted and the error bufio keeps for the next caller would both vanish)", 2)
+	c12SinkOwnership(c, "R10.9")
 	c10ScratchReset(c, "R10.7")
 
 	// ---------------- R10.4 ----------------
